@@ -9,6 +9,7 @@ import (
 	"encoding/csv"
 	"fmt"
 	"io"
+	"math"
 	"os"
 	"path/filepath"
 	"regexp"
@@ -424,9 +425,16 @@ var (
 	}
 )
 
+// statGenSignedZeros makes the generator produce zero measurements of either sign (a check whose
+// oracle does not depend on which zero a median or a most frequent value is sets it).
+var statGenSignedZeros bool
+
 func genStatValue(t *rapid.T, center float64, constant bool) float64 {
 	if constant {
 		return center
+	}
+	if statGenSignedZeros && vcase.OneIn(t, 6, "signedzero") {
+		return math.Copysign(0, float64(rapid.IntRange(-1, 1).Draw(t, "zerosign")))
 	}
 	if vcase.OneIn(t, 30, "zero") {
 		return 0
@@ -485,6 +493,12 @@ func genStatFile(t *rapid.T, scale float64, constant bool, baseOff int, many, co
 	// a part whose key merely starts like a projectable key (/size): it is not that key
 	withLook := vcase.OneIn(t, 5, "lookalikepart")
 	proc := rapid.SampledFrom(stProcs).Draw(t, "proc")
+	// names so long that a result line fills most of (or more than) one 4 KiB read window of the
+	// line scanner: consecutive lines then occupy the same bytes of its buffer
+	longPart := ""
+	if vcase.OneIn(t, 25, "longnames") {
+		longPart = "/pad=" + strings.Repeat("p", rapid.SampledFrom([]int{1300, 2040, 2100, 3000, 4090, 5000}).Draw(t, "longlen"))
+	}
 	units := []string{"ns/op"}
 	for _, u := range stUnits[1:] {
 		if vcase.OneIn(t, 3, "unit") {
@@ -496,6 +510,9 @@ func genStatFile(t *rapid.T, scale float64, constant bool, baseOff int, many, co
 		// where the base unit still contains a scalable component in the denominator
 		units = append(units, rapid.SampledFrom([]string{"ns/MB|sec/MB", "MB/ns|B/ns", "ns/ns|sec/ns"}).Draw(t, "twosp"))
 	}
+	// some lines carry a second measurement in a unit they already have (another spelling of the
+	// same unit included): both belong to the cell
+	repeatUnit := vcase.OneIn(t, 12, "repeatunit")
 	for b := 0; b < nblocks; b++ {
 		nk := rapid.IntRange(0, 3).Draw(t, "ncfg")
 		if b == 0 {
@@ -533,7 +550,7 @@ func genStatFile(t *rapid.T, scale float64, constant bool, baseOff int, many, co
 				if withKind {
 					name += "/kind=" + rapid.SampledFrom(stKinds).Draw(t, "kind")
 				}
-				name += proc
+				name += longPart + proc
 				fmt.Fprintf(&sb, "Benchmark%s %d", name, rapid.IntRange(1, 1000).Draw(t, "iters"))
 				for ui, u := range units {
 					if ui > 0 && vcase.OneIn(t, 6, "skipunit") {
@@ -558,6 +575,13 @@ func genStatFile(t *rapid.T, scale float64, constant bool, baseOff int, many, co
 						continue
 					}
 					fmt.Fprintf(&sb, " %v %s", val, u)
+					if repeatUnit && rapid.IntRange(0, 2).Draw(t, "repeathere") == 0 {
+						v2, u2 := genStatValue(t, c, constant), u
+						if u == "ns/op" && rapid.Bool().Draw(t, "repeatbase") {
+							v2, u2 = v2/1e9, "sec/op"
+						}
+						fmt.Fprintf(&sb, " %v %s", v2, u2)
+					}
 				}
 				sb.WriteString("\n")
 			}
